@@ -1,7 +1,6 @@
 CONSTANTS
   Keys <- KeysAll
   MaxLen = 25
-  Full = TRUE
   Quiet = FALSE
 INIT Init
 NEXT SimNext
